@@ -86,7 +86,8 @@ def build_call(cur, step):
 
 class C14(PureCheck):
     pid = "C14"
-    rule = ("bases: str and Layouts(2,2) over 4 attribute records (explicit False included); attribute maps: "
+    warm_every = 3
+    rule = ("bases: str (also str carrying 7-bit / 8-bit SGR sequences, judged as the same call on its parse) and Layouts(2,2) over 4 attribute records (explicit False included); attribute maps: "
             "{none,red,gray} fg x {none,blue,black} bg x {absent,False,True}^{bold,underline,invert}, each in every spelling "
             "(numbers+booleans, positional names, fg=/bg= names, style=, fmtfuncs nesting in both orders, copy_with_new_atts, "
             "nested single-attribute fmtstr calls in every order of <=3), overrides of an earlier value, the 25 fmtfuncs "
@@ -104,6 +105,8 @@ class C14(PureCheck):
             bases = [S(""), S("ab")] + [F(l) for l in L if fmtlib.vlen(l) <= 2 or len(l) <= 1][:60] + [F(l) for l in rng.sample(L, 40)]
         else:
             bases = [S(""), S("ab"), S("a\nb")] + [F(l) for l in L]
+        # text that carries SGR sequences itself (7-bit and 8-bit CSI): formatting it must equal formatting its parse
+        bases[2:2] = [S("a\x1b[31mb\x1b[39mc"), S("a\x9b31mb\x9b39mc"), S("\x9b44mxy"), S("\x1b[1mxy\x1b[0mz")]
         maps = []
         for fg in (None, "red", "gray"):
             for bg in (None, "blue", "black"):
@@ -183,6 +186,13 @@ class C14(PureCheck):
         op = inp["op"]
         ev = dict(inp)
         if op == "apply":
+            text = enc.dec_text(inp["base"]["v"][0][0]) if inp["base"]["k"] == "s" else ""
+            if "\x1b" in text or "\x9b" in text:
+                # the equivalent spelling the verdict is computed from: the same call on the parsed text
+                from curtsies.formatstring import FmtStr
+                ev["base"] = {"k": "f", "v": enc.enc_fmtstr(FmtStr.from_str(text))}
+                ev["rawbase"] = inp["base"]
+
             def run():
                 cur = enc.build_value(inp["base"])
                 for step in inp["steps"]:
